@@ -13,13 +13,14 @@ TECHNIQUE = "runtime monitor: per-segment trace/clock/state of the real simulato
 RULE = ("seeded model programs (float/int/Duration clocks) x seeded segmentation schedules of 2-9 commands with cut "
         "points before the first event, exactly at event times, strictly between events, at the warm-up time, at and "
         "beyond the replication end and before the current clock; pauses are forced deterministically (the handler of "
-        "the k-th event parks at a gate while stop() is issued); non-trivial = schedule with >=2 different command "
+        "the k-th event parks at a gate while stop() is issued; 12 (thorough 72) cases pause from a TIME_CHANGED subscriber that calls stop() on the run thread); non-trivial = schedule with >=2 different command "
         "kinds, >=1 cut exactly at an event time and >=1 strictly between two event times, run to the end; distinct = "
         "canonical (program, schedule) hash")
 ASSUMPTIONS = ["a bounded run whose bound lies before the clock may be refused or be a no-op, but must not execute anything or move the clock backwards",
                "a step with nothing executable executes nothing; the clock may stay anywhere in [clock, end]",
                "an exclusive bound exactly at the replication end is not generated (the statement leaves it open)",
-               "a bound beyond the replication end behaves like the end itself (clock = end, ENDED)"]
+               "a bound beyond the replication end behaves like the end itself (clock = end, ENDED)",
+               "a stop() issued inside the TIME_CHANGED notification of time t pauses the run no later than the end of instant t (no event later than t runs before the pause); where inside the instant the pause lands is not judged, only that the pieces compose"]
 
 
 def plan(tier):
@@ -45,6 +46,13 @@ def gen_case(rng, tier, i):
                 "init": [["abs", lit(t), 5, f"a{t}"] for t in range(1, 11)] + [["abs", lit(5), 3, "a5b"]],
                 "handlers": {"a2": [["refused_inside", inner, lit(7)]]}}
         return {"fam": "refuse", "prog": prog, "outer": outer, "inner": inner, "bound": 5}
+    nl = 12 if tier == "quick" else 72
+    if nre + 18 <= i < nre + 18 + nl:
+        # a subscriber of the TIME_CHANGED notification pauses the run (stop() from the run thread, after a time was announced
+        # and before its first event ran); the run is then resumed: wherever the pause lands, nothing is lost or repeated
+        # (each of these cases costs the library's 1 s self-wait of stop() on the run thread)
+        prog = gen_program(rng, clock=clock, n_events=rng.randint(6, 30), with_bad=False, bigint=False)
+        return {"fam": "lstop", "prog": prog, "ks": [rng.randint(1, 6) for _ in range(1 + (i % 2))]}
     if i < nre:
         # a handler ends the current run and re-issues it with a nearer bound: stop(); run_up_to(t) from inside the run
         # (each of these cases costs the library's 1 s self-wait of stop() on the run thread)
@@ -163,6 +171,57 @@ def _rebound(case, ctx):
         h.cleanup()
 
 
+def _lstop(case, ctx):
+    from vlib.simharness import Harness, compare_traces
+    from vlib.refdevs import Ref
+    prog = case["prog"]
+    full = Ref(prog)
+    full.initialize()
+    full.run()
+    want = [(t, cl) for t, cl, _ in full.trace]
+    h = Harness(prog)
+    where = {"clock": prog["clock"], "stop_inside_time_changed_notification_number": case["ks"]}
+    try:
+        if h.cmd("initialize") != "ok":
+            ctx.viol("initialize-raises", where)
+            return
+        for k in case["ks"]:
+            if h.sim.run_state.name == "ENDED":
+                break
+            h.stop_from_time_changed(k)
+            first = len(h.hlog)
+            if h.cmd("start") != "ok" or not h.wait_quiescent(30):
+                ctx.viol("hang:lstop", {**where, "snapshot": h.snapshot()})
+                return
+            if h.lstop_out is None:
+                continue            # the run ended before the k-th announcement
+            ctx.count("pauses_requested_by_a_time_changed_listener")
+            w = {**where, "stop_at_announced_time": h.lstop_at, "stop_outcome": h.lstop_out}
+            if h.lstop_out != "ok":
+                ctx.viol(f"stop-of-a-running-simulator-refused:{h.lstop_out}", w)
+                return
+            got = h.trace()
+            if not compare_traces(ctx, got, want, w, prefix_ok=True, what="segment:listener-pause"):
+                return
+            later = [x for x in h.trace(first) if x[1] > h.lstop_at]
+            snap = h.snapshot()
+            if later or (len(got) < len(want) and (snap["run_state"], snap["replication_state"]) != ("STOPPED", "STARTED")):
+                ctx.viol("run-not-paused-by-stop-from-a-listener", {**w, "executed_later_than_the_stop": later, "snapshot": snap})
+                return
+        if h.sim.run_state.name != "ENDED" and (h.cmd("start") != "ok" or not h.wait_quiescent(30)):
+            ctx.viol("not-resumable-after-a-pause", {**where, "snapshot": h.snapshot()})
+            return
+        ctx.count("compositions_judged")
+        if not compare_traces(ctx, h.trace(), want, where, what="composition"):
+            return
+        if h.snapshot()["clock"] != num(full.clock):
+            ctx.viol("composition:final-clock", {**where, "got": h.snapshot()["clock"], "want": num(full.clock)})
+            return
+        ctx.nontrivial = True
+    finally:
+        h.cleanup()
+
+
 def _refuse(case, ctx):
     from vlib.simharness import Harness
     prog = case["prog"]
@@ -205,6 +264,8 @@ def run_case(case, ctx):
         return _rebound(case, ctx)
     if case.get("fam") == "refuse":
         return _refuse(case, ctx)
+    if case.get("fam") == "lstop":
+        return _lstop(case, ctx)
     prog, sched = case["prog"], case["sched"]
     ref = Ref(prog)
     ref.initialize()
